@@ -111,7 +111,7 @@ class ImmutableDict(Mapping[Any, Any]):
         self._validate(arg)
         d = dict(arg)
         super().__setattr__('_d', d)
-        super().__setattr__('_hash', hash(tuple([(type(x), x, type(y), y) for x, y in sorted(d.items())])))
+        super().__setattr__('_hash', hash(tuple(sorted(d.items()))))
 
     def _validate(self, arg: dict[Any, Any] | Iterable[tuple[Any, Any]]) -> None:
         """Validate arguments."""
